@@ -79,6 +79,7 @@ Theorem C12_scanner_commutes_with_case (f : char -> char) s : (forall c, lc (f c
 Proof. intros Hf. exact (parse_spelling_map f Hf s). Qed.
 Print Assumptions C12_scanner_commutes_with_case.
 
+(* (Theorems 1-2b are about the scanner model, which has no digit limit - finding D10: the real Version() rejects a component of more than 4300 digits.) *)
 (* 8. ASCII only: one character that is neither whitespace nor ASCII (e.g. U+017F, U+0131, U+0130, U+212A, an Arabic-Indic or full-width digit)
       anywhere in the string makes Version reject it *)
 Theorem C12_version_non_ascii_rejected s c : In c s -> is_ws c = false -> is_ascii c = false -> Version s = None.
